@@ -47,7 +47,34 @@ theorem respond_catchall (r : ReqX) (s : Sig) (h : CatchAll s) (nargs : Nat) : r
   unfold respond
   cases handleX r with
   | status c => rfl
-  | handler kw => simp [C03_bind_catchall s h]
+  | handler kw => simp [C03_bind_catchall s h, lateKwargs]
+
+/-- Late binding: what a tool assigns between dispatch and the call reaches the handler — the last
+    assignment to a key wins over whatever the request carried, every other key is untouched. -/
+theorem lookup_lateKwargs (params : Params) (late : List (Text × Text)) (k : Text) :
+    lookup (lateKwargs params late) k =
+      match late.reverse.find? (fun kv => kv.1 = k) with
+      | some kv => some (.one (.str kv.2))
+      | none => lookup params k := by
+  induction late generalizing params with
+  | nil => simp [lateKwargs]
+  | cons kv rest ih =>
+    have := ih (assign params kv.1 (.one (.str kv.2)))
+    simp only [lateKwargs, List.foldl_cons] at this ⊢
+    rw [this, List.reverse_cons, List.find?_append]
+    cases hf : rest.reverse.find? (fun x => x.1 = k) with
+    | some x => simp
+    | none =>
+      simp only [Option.none_or, List.find?_cons, List.find?_nil]
+      rw [lookup_assign]
+      by_cases hk : kv.1 = k
+      · simp [hk]
+      · simp [hk]
+
+theorem respond_catchall_late (r : ReqX) (s : Sig) (h : CatchAll s) (nargs : Nat) (late : List (Text × Text))
+    (kw : Params) (hx : handleX r = .handler kw) : respond r s nargs late = .handler (lateKwargs kw late) := by
+  unfold respond
+  simp [hx, C03_bind_catchall s h]
 
 /-! ## status codes -/
 
@@ -363,7 +390,8 @@ example :
 /-! ## the whole request -/
 
 /-- Statuses of a whole request as far as parameters are concerned. -/
-theorem respond_status (r : ReqX) (s : Sig) (nargs : Nat) (c : Nat) (h : respond r s nargs = .status c) :
+theorem respond_status (r : ReqX) (s : Sig) (nargs : Nat) (late : List (Text × Text)) (c : Nat)
+    (h : respond r s nargs late = .status c) :
     c = 404 ∨ c = 411 ∨ c = 400 ∨ c = 500 := by
   unfold respond at h
   cases hx : handleX r with
@@ -386,8 +414,9 @@ theorem respond_status (r : ReqX) (s : Sig) (nargs : Nat) (c : Nat) (h : respond
 
 /-- When the handler is called it is called with what `handleX` computed — binding never alters,
     drops or adds a parameter. -/
-theorem respond_handler (r : ReqX) (s : Sig) (nargs : Nat) (kw : Params) (h : respond r s nargs = .handler kw) :
-    handleX r = .handler kw := by
+theorem respond_handler (r : ReqX) (s : Sig) (nargs : Nat) (late : List (Text × Text)) (kw : Params)
+    (h : respond r s nargs late = .handler kw) :
+    ∃ kw0, handleX r = .handler kw0 ∧ kw = lateKwargs kw0 late := by
   unfold respond at h
   cases hx : handleX r with
   | status c => rw [hx] at h; cases h
@@ -395,7 +424,8 @@ theorem respond_handler (r : ReqX) (s : Sig) (nargs : Nat) (kw : Params) (h : re
     rw [hx] at h
     simp only [] at h
     split at h
-    · exact h
+    · simp only [Outcome.handler.injEq] at h
+      exact ⟨kw', rfl, h.symm⟩
     · cases h
 
 end CpProofs.C03
